@@ -1,4 +1,5 @@
 import PebblesVerif.Props.C18
+import PebblesVerif.Props.C18Init
 open PebblesVerif.C18
 #print axioms C18_facts
 #print axioms C18_knobs
@@ -14,3 +15,11 @@ open PebblesVerif.C18
 #print axioms C18_ended_stable
 #print axioms C18_quiescent
 #print axioms C18_frames_whole
+#print axioms C18_init_facts
+#print axioms C18_init_no_fatal
+#print axioms C18_init_no_deadlock
+#print axioms C18_init_terminates
+#print axioms C18_init_bounded
+#print axioms C18_init_reports
+#print axioms C18_init_handover
+#print axioms C18_init_leak_before_repair
